@@ -351,6 +351,10 @@ func (c *simClient) impl(ctx context.Context, _ []string, in io.ReadCloser, out,
 		if _, err := simrt.ReadFull(in, buf, "simclient.read"); err != nil {
 			break
 		}
+		if c.dead {
+			// the process died while this request was in flight: a dead process handles nothing
+			return c.deathStatus(status)
+		}
 		req := &conformancev1.ClientCompatRequest{}
 		if err := proto.Unmarshal(buf, req); err != nil {
 			c.die()
